@@ -3305,7 +3305,7 @@ def _guarded_index_models():
             r"^<Vec<types::DataType> as Index<usize>>::index$|^<Row as Index<usize>>::index$": m_index}
 
 
-@obligation(id="C16.argument_indexing_guarded", also="C05", funcs="<* as Callable>::call (every scalar function in runtime/eval.rs),ExpressionEvaluator::eval_column",
+@obligation(id="C16.argument_indexing_guarded", also="C05", funcs="<* as Callable>::call (every scalar function in runtime/eval.rs),ExpressionEvaluator::eval_column,DmlExecutor::build_full_row",
             bounds="every path of each function (loops unrolled twice); the argument vector / row has ANY length; other callees uninterpreted",
             native="c16_scalar_function_arity")
 def c16_arg_index(env, ob):
@@ -3323,6 +3323,9 @@ def c16_arg_index(env, ob):
     if len(targets) < 3:
         raise Unsupported("scalar function implementations (impl Callable) not found in the dump")
     targets.append(("eval_column", env.mir.find("runtime/eval.rs", "eval_column")))
+    # INSERT .. SELECT hands build_full_row whatever the source plan produced (an aggregate without a projection yields
+    # fewer columns than the select list counted by the binder): the copy loop indexes the source row by position
+    targets.append(("build_full_row", env.mir.find("runtime/dml.rs", "build_full_row")))
     bad, inc, total, nq = [], [], 0, 0
     for name, f in targets:
         ctx = mirsmt.Ctx()
